@@ -591,6 +591,13 @@ class _BreakLoop(Exception):
     pass
 
 
+class CellWeight:
+    """a per-cell array of the mesh (cell volumes ...) expanded to the packed unknowns; vec: 'row' = 1-D (numpy broadcasts it along
+    the last axis of a matrix: column scaling), 'col' = with [:, None] (row scaling)"""
+    def __init__(self, name, vec):
+        self.name, self.vec = name, vec
+
+
 class DataCond:
     """a condition on the VALUES of the data (np.any(residual), a norm compared with a tolerance ...): true for
     some inputs, false for others.  Its outcome is taken from the run's data policy; run_step explores every
@@ -1240,6 +1247,14 @@ class AffInterp:
             raise AnalysisError("%s:%d unsupported operands: %s" % (func.qualname, node.lineno, e))
 
     def binop(self, op, a, b):
+        if isinstance(a, CellWeight) or isinstance(b, CellWeight):
+            w, o = (a, b) if isinstance(a, CellWeight) else (b, a)
+            if isinstance(op, ast.Mult) and isinstance(o, (Op, JacMat)) and w.vec == "row":
+                e = AnalysisError("a 1-D array over the unknowns multiplies the system matrix")
+                e.violation = ("TH-SCHEME", "integration.implicitmodel.solve_implicit", "the system matrix is multiplied by the 1-D array `%s` (one entry per unknown): numpy broadcasts a 1-D array along the LAST axis, so `w * M` is M*diag(w) -- it scales the COLUMNS (the unknowns), not the rows (the equations); `w[:, None] * M` weights the equations.  With the right-hand side weighted as `w * r` the system solved is M diag(w) x = diag(w) r: another solution whenever the weights differ between cells (a non-uniform mesh)" % w.name,
+                               "col-scaling", {"C01", "C06", "C13", "C14", "C04", "C03"})
+                raise e
+            raise AnalysisError("a per-cell weight array (%s) in the implicit system is not modelled" % w.name)
         if isinstance(op, ast.Mult) and ((isinstance(a, list) and isinstance(b, int)) or (isinstance(b, list) and isinstance(a, int))) and not isinstance(a, bool) and not isinstance(b, bool):
             # [x] * n: n references to the SAME object x (Python's semantics -- the abstract arrays are mutable objects here too,
             # so an element store through one entry shows through all of them)
@@ -1445,6 +1460,8 @@ class AffInterp:
             return S({0: 1})
         if base == "repeat":
             v = args[0]
+            if isinstance(v, Opaque) and len(args) >= 2:
+                return CellWeight(v.name, "row")         # a per-cell array of the mesh (volumes ...) expanded to the packed unknowns
             return v.as_vec("row") if isinstance(v, S) else v      # one entry per packed unknown
         if base == "tile":
             v = args[0]
